@@ -44,7 +44,11 @@ def run_scenario(sc):
                     last["client"].get_national_summary_votes_estimates({s: 1.0 for s in states}, 0, [0.6])
                     last["client"].get_national_summary_votes_estimates({s: float(i + 2) for i, s in enumerate(states)}, 3, [0.7, 0.9])
                     last["client"].get_national_summary_votes_estimates(None, 1, [0.99, 0.5])
-                df = last["client"].get_national_summary_votes_estimates({s: float(i + 2) for i, s in enumerate(states)}, 3, [0.7, 0.9])
+                if sc.get("nat_unit_weights"):
+                    # every contest counts 1: many draws tie on the national total
+                    df = last["client"].get_national_summary_votes_estimates(None, 0, [0.5, 0.6, 0.7, 0.8, 0.9, 0.95, 0.99])
+                else:
+                    df = last["client"].get_national_summary_votes_estimates({s: float(i + 2) for i, s in enumerate(states)}, 3, [0.7, 0.9])
                 res["nat_sum"] = canon({"nat_sum": df})
             except Exception as e:  # noqa: BLE001
                 res["nat_sum_exc"] = (type(e).__name__, str(e)[:200])
